@@ -133,6 +133,14 @@ pub fn run(
     run_on(&engine(config, offline)?, config, exceptions)
 }
 
+/// The server's initial quick run (store only, fails retryably when
+/// something is not in the store yet): `Ok` or the failure class.
+pub fn run_initial(config: &Config) -> Result<(), String> {
+    let engine = engine(config, false)?;
+    ValidationReport::process(&engine, config, true)
+        .map(|_| ()).map_err(|e| format!("run failed (fatal={})", e.is_fatal()))
+}
+
 /// One validation run on an existing engine.
 pub fn run_on(
     engine: &Engine, config: &Config, exceptions: &LocalExceptions
